@@ -233,7 +233,7 @@ def run(prog: Program, res: Result) -> None:  # noqa: PLR0912, PLR0915
         m = ctx.methods.get(nm)
         if m is None:
             raise AnalysisError(f"RenderContext.{nm} vanished")
-        lens = [r for r in ast.walk(m.node) if isinstance(r, ast.Return) and norm(r.value) == "len(obj)"]
+        lens = [r for r in ast.walk(m.node) if isinstance(r, ast.Return) and norm(r.value) in ("len(obj)", "length(obj)")]
         what = f"{nm}: `return len(obj)` guarded by isinstance tests only"
         ok = bool(lens)
         for r in lens:
